@@ -95,7 +95,7 @@ def _mult_sublists(tensor_list, overall_inds, U, inds):
     inds_sublist = _flatten(inds_sublist)
     U_sublist = tensor(tensor_sublist)
 
-    revised_inds = list(set(inds_sublist).union(set(inds)))
+    revised_inds = sorted(set(inds_sublist).union(set(inds)))
     N = len(revised_inds)
 
     sorted_positions = sorted(range(N), key=lambda key: revised_inds[key])
